@@ -430,7 +430,7 @@ class Interp:
             raise self.unsupported(node, "super() outside method")
         assert isinstance(node.func, ast.Attribute)
         mname = node.func.attr
-        args = [self.eval(a, fr) for a in node.args]
+        args = self.eval_seq(node.args, fr)
         kwargs = {k.arg: self.eval(k.value, fr) for k in node.keywords if k.arg}
         self_av = fr.self_av
         inst_cls: ClassInfo = self_av.cls if isinstance(self_av, Inst) else fr.fi.cls
@@ -618,6 +618,9 @@ class Interp:
             for e in v.events:
                 self.emit(e)
             return
+        if isinstance(v, (Opaque, Term)):
+            self.emit(Ev("yield_from", value=v, site=self.site(node, fr)))
+            return
         kind, payload = self.host.iterate(v, node)
         if kind == "concrete":
             for x in payload:
@@ -632,6 +635,8 @@ class Interp:
 
     # ----------------------------------------------------------------- loops
     def concrete_items(self, v: AV, node: Optional[ast.AST]) -> List[AV]:
+        if isinstance(v, Term) and v.op == "slice_indices":
+            return [Term("getitem", (v, Const(k)), self.ctx.new_id()) for k in range(3)]
         kind, payload = self.host.iterate(v, node)
         if kind != "concrete":
             raise (self.unsupported(node, f"needs a concrete sequence, got {v!r}") if node else Unsupported(f"needs concrete sequence: {v!r}"))
@@ -819,6 +824,36 @@ class Interp:
         )
 
     def s_While(self, st: ast.While, fr: Frame) -> None:
+        probe = None
+        if isinstance(st.test, ast.Name):
+            probe = fr.locals.get(st.test.id)
+        if isinstance(probe, AbsQueue) and probe.items is None:
+            # work-queue loop: run the body once on a generic iteration
+            src = Source("while", probe, id=self.ctx.new_id(), depth=self.loop_depth)
+            el = Elem(self.ctx.new_id(), src)
+            before = dict(fr.locals)
+            sub: List[Ev] = []
+            self.sink_stack.append(sub)
+            self.loop_depth += 1
+            try:
+                try:
+                    self.exec_block(st.body, fr)
+                except _Continue:
+                    pass
+                except _Break:
+                    sub.append(Ev("break", site=self.site(st, fr)))
+                except _Return as r:
+                    sub.append(Ev("return", value=r.value, site=self.site(st, fr)))
+                except AbsRaise as r:
+                    sub.append(Ev("raise", value=r.exc, site=r.site))
+            finally:
+                self.loop_depth -= 1
+                self.sink_stack.pop()
+            for k, v in before.items():
+                if fr.locals.get(k) is not v:
+                    sub.append(Ev("carried", value=k, site=self.site(st, fr), info=fr.locals.get(k)))
+            self.emit(Ev("foreach", src=src, elem=el, body=sub, site=self.site(st, fr)))
+            return
         n = 0
         limit = self.hooks.get("__while_limit__", 64)
         while True:
